@@ -584,6 +584,10 @@ def egraph_reference(func_op, cost_of, interner):
             return ex_class(c)
         if v.owner is block:
             return interner.get(("arg", v.index))
+        if getattr(v.owner, "parent", None) is not block:
+            if not any(k == "value-from-another-block" for k, _ in problems):
+                problems.append(("value-from-another-block", f"an e-node of this function uses {v.owner.name} of another block"))
+            return interner.get(("foreign", v.owner.name))
         return ex_node(v)
 
     def ex_class(c):
